@@ -584,6 +584,15 @@ func (s *AbsfsNFS) CreateWithContext(ctx context.Context, dir *NFSNode, name str
 		return nil, fmt.Errorf("create: failed to chmod %s: %w", path, err)
 	}
 
+	// Record the requested owner (the caller's effective identity), as MKDIR and SYMLINK do
+	if err := s.fs.Chown(path, int(attrs.Uid), int(attrs.Gid)); err != nil {
+		if slog := s.getStructuredLogger(); slog != nil {
+			slog.Warn("CREATE: failed to set owner",
+				LogField{Key: "path", Value: path},
+				LogField{Key: "error", Value: err})
+		}
+	}
+
 	// Invalidate parent directory caches and negative cache entries in the directory
 	s.attrCache.Invalidate(dir.path)
 	s.attrCache.InvalidateNegativeInDir(dir.path)
